@@ -80,6 +80,18 @@ def observe(raw, cut, start, alt=0):
         # a second look with the other cutoff type must agree (cache keyed by type)
         if L(fh.to_absolute(c2).to_pandas()) != o["abs"] or L(fh.to_indexer(c2)) != o["idx"]:
             o["abs"] = o["abs"] + [-999999]
+        # the same object asked again with ANOTHER cutoff answers like a fresh horizon (nothing cutoff-specific is kept)
+        fresh = ForecastingHorizon(values, is_relative=bool(raw["rel"]))
+        for c3 in (int(cut) + 2, int(cut)):
+            a = (L(fh.to_in_sample(c3).to_pandas()), L(fh.to_out_of_sample(c3).to_pandas()), bool(fh.is_all_in_sample(c3)),
+                 bool(fh.is_all_out_of_sample(c3)), L(fh.to_absolute(c3).to_pandas()), L(fh.to_relative(c3).to_pandas()),
+                 L(fh.to_indexer(c3)))
+            b = (L(fresh.to_in_sample(c3).to_pandas()), L(fresh.to_out_of_sample(c3).to_pandas()), bool(fresh.is_all_in_sample(c3)),
+                 bool(fresh.is_all_out_of_sample(c3)), L(fresh.to_absolute(c3).to_pandas()), L(fresh.to_relative(c3).to_pandas()),
+                 L(fresh.to_indexer(c3)))
+            fresh = ForecastingHorizon(values, is_relative=bool(raw["rel"]))
+            if a != b:
+                o["ins"] = o["ins"] + [-999999]
         # check_fh: same object passes through, empty horizon is rejected there
         if check_fh(fh) is not fh and L(check_fh(fh).to_pandas()) != o["vals"]:
             o["vals"] = o["vals"] + [-999999]
